@@ -103,6 +103,17 @@ def classify(kf, rec):
             return "preserve" in what and hit(mdast.doc_tree(c.get("parser_input") or c.get("doc", "")))
         except Exception:
             return False
+    if cl == "refdef-at-end-of-loose-item":
+        def hit(t):
+            if t["t"] == "ListItem":
+                kids = [k for k in t.get("c", []) if k["t"] != "BlankLine"]
+                if kids and kids[-1]["t"] == "LinkRefDef":
+                    return True
+            return any(hit(k) for k in t.get("c", []))
+        try:
+            return hit(mdast.doc_tree(c.get("parser_input") or c.get("doc", "")))
+        except Exception:
+            return False
     if cl == "tight-mode-leaves-multi-block-neighbours":
         return False
     return False
